@@ -331,8 +331,42 @@ func checkC12(c *Check) {
 			} else {
 				c.Bad(key+":optional", p.FuncPos(up), "an optional segment is emitted although withOptional is false (or never emitted)", bad)
 			}
+			// … and always when it is set: nothing but Optional && !withOptional ends or skips an iteration
+			// before the segment's separator is written
+			if from, isI := seg.(ssa.Instruction); isI && len(writes) > 0 {
+				var first ssa.Instruction
+				for _, w := range writes {
+					if w.ci.Block() != nil && from.Block().Dominates(w.ci.Block()) {
+						if ok, _ := mustPrecede(up, func(x ssa.Instruction) bool { return x == from }, w.ci); ok {
+							if first == nil || w.ci.Block().Dominates(first.Block()) && w.ci.Pos() < first.Pos() {
+								first = w.ci
+							}
+						}
+					}
+				}
+				if first != nil {
+					noOpt := edgesWhere(up, cBool(vParam(up, 2)), false)
+					fb := from.Block()
+					target := func(in ssa.Instruction) bool {
+						if _, isRet := in.(*ssa.Return); isRet {
+							return true
+						}
+						b := in.Block()
+						return b != fb && b.Dominates(fb) && len(b.Instrs) > 0 && b.Instrs[0] == in
+					}
+					if in, path := (Query{Fn: up, Cut: noOpt, Avoid: isInstr(first)}).After(from, target); in != nil {
+						c.Bad(key+":optional-when-asked", p.Pos(first.Pos()), "a segment can be left out although it is not optional or withOptional is set (e.g. depending on the supplied values): the optional segment is included exactly when asked, binds without a value stay visible as {bind}", blockPath(path))
+					} else {
+						c.OK(key+":optional-when-asked", p.Pos(first.Pos()), "only Optional && !withOptional ends the skeleton early", numInstrs(up))
+					}
+				}
+			}
 		}
 	}
+
+	// ---- R6 one value per name
+	c.Rule("R6", "shared with C08 (R4)", "a bind name occurs once along a route (every name, no exemptions): values are substituted by name, so two binds of one name cannot both reproduce the request path", 8)
+	c.Share("C08", []string{"R4"}, 8)
 
 	// ---- R5 router front end
 	c.Rule("R5", "E1/E3", "router.URLPath panics on an unknown name before use, turns pairs into a map by (i-1, i), honours and removes withOptional; Name() panics on empty/duplicate names before storing; Context.URLPath forwards unchanged", 6)
